@@ -16,7 +16,8 @@ SIZES = list(range(-2, 257))
 
 # selections in which the generator code itself is compiled differently
 CONFIGS = [("bigcrypt-no-descrypt", ["bigcrypt", "sha512crypt"]), ("descrypt-only", ["descrypt"]),
-           ("gost-only", ["gost_yescrypt"]), ("scrypt-only", ["scrypt"])]
+           ("gost-only", ["gost_yescrypt"]), ("scrypt-only", ["scrypt"]),
+           ("no-default", ["sha256crypt", "md5crypt", "descrypt"])]
 
 
 def columns(seed, tier, methods=None):
@@ -168,6 +169,24 @@ def do_config(args):
         return acc
     try:
         acc = do_chunk(columns(seed, tier, en), exe, name)
+        if not any(m in en for m in ("yescrypt", "bcrypt", "sha512crypt")):
+            # no default method in this build: a NULL prefix must fail with EINVAL and, like every failure, leave
+            # the token in the buffer
+            w = pool.Worker(exe)
+            lines = [rt.gensalt_line("rn", None, 0, facts.rbytes_pattern("rnd", 16), 16, sz) for sz in range(1, 64)]
+            rows = rt.run_resilient(w, ["preerrno 2"], lines)
+            w.stop()
+            for sz, r, ln in zip(range(1, 64), rows, lines):
+                if not isinstance(r, dict):
+                    continue
+                acc.count("evaluations")
+                acc.cls(("NULL", "no-default", min(sz, 4)))
+                want = b"*0" if sz >= 3 else (b"*" if sz == 2 else b"")
+                if r["r"] != "N" or rt.errno_of(r) not in (rt.EINVAL, rt.ERANGE) or r.get("nul") != "1" or rt.out_of(r) != want:
+                    acc.violation("%s/token/NULL" % PID, "NULL prefix, size=%d: r=%s errno=%s buffer holds %r, want NULL with "
+                                                         "EINVAL/ERANGE and %r" % (sz, r["r"], r.get("e"), rt.out_of(r), want),
+                                  rt.replay_obj(FL, [ln]))
+                    break
     finally:
         shutil.rmtree(os.path.dirname(exe), ignore_errors=True)
     # keys of another configuration are told apart
